@@ -312,7 +312,7 @@ def run_case(case):
         want_root = canon_root(model)
         if t.root_hash != want_root:
             res.fail("root-not-canonical", "after %r the root is %s, the canonical encoding of %r hashes to %s"
-                     % (op, t.root_hash.hex()[:16], sorted(model.items()), want_root.hex()[:16]))
+                     % (op, common.hx(t.root_hash)[:16], sorted(model.items()), want_root.hex()[:16]))
         if not model and t.root_hash != BLANK:
             res.fail("empty-root-not-blank", "trie is empty but the root is not the blank hash")
         for p in probes:
